@@ -16,7 +16,7 @@ const (
 			return
 		}
 	}
-	{{.Range}}[i] = x
+	{{.Range}}[i] += x
 	`
 	simpleUnaryCallFunc = `{{template "symbol" .}}({{.Left}}[{{.Index0}}])`
 )
